@@ -7,8 +7,11 @@
 package main
 
 import (
+	"database/sql"
 	"database/sql/driver"
+	"encoding/json"
 	"fmt"
+	"io/ioutil"
 	"math"
 	"math/big"
 	"path/filepath"
@@ -31,6 +34,9 @@ type Case struct {
 	Seed   uint64 `json:"seed"`
 	Preset string `json:"preset,omitempty"`
 	Origin string `json:"origin,omitempty"`
+	// Focus (failing-input search): boundary values everywhere - nil / nil-pointer / zero filter values,
+	// rows holding zero values, more filters per case.
+	Focus bool `json:"focus,omitempty"`
 }
 
 // ---------- column descriptors as the model sees them ----------
@@ -55,6 +61,10 @@ func baseOf(t reflect.Type) (string, string, int) {
 		return "(BCustom CBin)", "cbin", 0
 	case ctextType:
 		return "(BCustom CText)", "ctext", 0
+	case cuuidType:
+		return "(BCustom CUuid)", "cuuid", 0
+	case nullStrType:
+		return "(BCustom CNull)", "cnull", 0
 	}
 	switch t.Kind() {
 	case reflect.Int, reflect.Int64:
@@ -82,7 +92,7 @@ func baseOf(t reflect.Type) (string, string, int) {
 	case reflect.String:
 		return "BStr", "str", 0
 	}
-	panic("baseOf: unsupported type " + t.String())
+	return "BStr", "other", 0 // oracle-only tables: never printed
 }
 
 func descOf(c *sqlgen.Column) mdesc {
@@ -177,7 +187,7 @@ func (g *registry) prelude() string {
 		changed = false
 		for b := range g.floats {
 			f := math.Float64frombits(b)
-			for _, s := range []string{strconv.FormatFloat(f, 'g', -1, 64), strconv.FormatFloat(f, 'g', -1, 32)} {
+			for _, s := range []string{strconv.FormatFloat(f, 'g', -1, 64), strconv.FormatFloat(f, 'g', -1, 32), strconv.FormatFloat(f, 'g', 6, 32)} {
 				if !g.strs[s] {
 					g.strs[s], changed = true, true
 				}
@@ -225,8 +235,9 @@ func (g *registry) prelude() string {
 	var ft, pf, tt, pt []string
 	for _, b := range fk {
 		f := math.Float64frombits(b)
-		ft = append(ft, fmt.Sprintf("(%s, mk_f %s %s %s)", zlit(strconv.FormatUint(b, 10)),
+		ft = append(ft, fmt.Sprintf("(%s, mk_f %s %s %s %s)", zlit(strconv.FormatUint(b, 10)),
 			vh.CoqString(strconv.FormatFloat(f, 'g', -1, 64)), vh.CoqString(strconv.FormatFloat(f, 'g', -1, 32)),
+			vh.CoqString(strconv.FormatFloat(f, 'g', 6, 32)),
 			zlit(strconv.FormatUint(math.Float64bits(float64(float32(f))), 10))))
 	}
 	for _, id := range tk {
@@ -262,6 +273,15 @@ func (g *registry) gval(v reflect.Value) string {
 		return "(GBytes (Some " + g.str(string(v.Bytes())) + "))"
 	case cvalType, cbinType, ctextType:
 		return "(GCust " + g.str(v.Field(0).String()) + ")"
+	case cuuidType:
+		u := v.Interface().(CUuid)
+		return "(GCust " + g.str(string(u[:])) + ")"
+	case nullStrType:
+		ns := v.Interface().(sql.NullString)
+		if !ns.Valid {
+			return "(GBytes None)"
+		}
+		return "(GBytes (Some " + g.str(ns.String) + "))"
 	}
 	switch v.Kind() {
 	case reflect.Int, reflect.Int8, reflect.Int16, reflect.Int32, reflect.Int64:
@@ -406,6 +426,8 @@ type how struct {
 
 func wrapS(w int, z int64) interface{} {
 	switch w {
+	case 24: // MEDIUMINT: the decoder sign-extends the 3 bytes into an int32
+		return int32(uint32(z)<<8) >> 8
 	case 8:
 		return int8(z)
 	case 16:
@@ -478,8 +500,15 @@ func repr(c sqlcol, p string, v driver.Value) (interface{}, bool) {
 			}
 			return x, true
 		case "float":
-			if p == "PText" || float64(float32(x)) != x {
+			if float64(float32(x)) != x {
 				return nil, false
+			}
+			if p == "PText" { // MySQL prints a FLOAT column with 6 significant digits
+				t := strconv.FormatFloat(x, 'g', 6, 32)
+				if back, err := strconv.ParseFloat(t, 64); err != nil || float64(float32(back)) != x {
+					return nil, false
+				}
+				return []byte(t), true
 			}
 			return float32(x), true
 		}
@@ -531,7 +560,7 @@ func repr(c sqlcol, p string, v driver.Value) (interface{}, bool) {
 	return nil, false
 }
 
-var intWidths = []int{8, 16, 32, 64}
+var intWidths = []int{8, 16, 24, 32, 64}
 
 // pickColumn chooses the MySQL column a field of descriptor d holding driver value v is stored in.
 func pickColumn(r *vh.Rng, d mdesc, v driver.Value) sqlcol {
@@ -549,10 +578,14 @@ func pickColumn(r *vh.Rng, d mdesc, v driver.Value) sqlcol {
 		}
 		switch r.Intn(10) {
 		case 0, 1:
-			w = intWidths[r.Intn(4)]
+			w = intWidths[r.Intn(5)]
 		case 2:
 			if w < 64 {
 				w *= 2
+			}
+		case 3:
+			if w == 32 && r.Bool() {
+				w = 24
 			}
 		}
 		return sqlcol{kind: "int", w: w, unsigned: d.kind == "uint"}
@@ -684,6 +717,18 @@ func genValue(r *vh.Rng, t reflect.Type, implicitZero bool, hist func(string)) r
 	case cvalType, cbinType, ctextType:
 		v.Field(0).SetString(r.Pick(strPool))
 		return v
+	case cuuidType:
+		var u CUuid
+		if !r.Chance(35) { // 35%: the zero array
+			copy(u[:], r.Pick(strPool)+"0123456789abcdef")
+		}
+		v.Set(reflect.ValueOf(u))
+		return v
+	case nullStrType:
+		if !r.Chance(35) {
+			v.Set(reflect.ValueOf(sql.NullString{String: r.Pick(strPool), Valid: true}))
+		}
+		return v
 	}
 	switch t.Kind() {
 	case reflect.Int, reflect.Int8, reflect.Int16, reflect.Int32, reflect.Int64:
@@ -698,6 +743,26 @@ func genValue(r *vh.Rng, t reflect.Type, implicitZero bool, hist func(string)) r
 		v.SetBool(r.Bool())
 	case reflect.String:
 		v.SetString(r.Pick(strPool))
+	case reflect.Slice: // []int64 (json payload)
+		if n := r.Intn(4); n > 0 {
+			sl := reflect.MakeSlice(t, n-1, n-1)
+			for i := 0; i < n-1; i++ {
+				sl.Index(i).SetInt(int64(genInt(r, 64, false)))
+			}
+			v.Set(sl)
+		}
+	case reflect.Map:
+		if n := r.Intn(4); n > 0 {
+			m := reflect.MakeMap(t)
+			for i := 0; i < n-1; i++ {
+				m.SetMapIndex(reflect.ValueOf(r.Pick(strPool)), reflect.ValueOf(int64(genInt(r, 64, false))))
+			}
+			v.Set(m)
+		}
+	case reflect.Struct:
+		for i := 0; i < t.NumField(); i++ {
+			v.Field(i).Set(genValue(r, t.Field(i).Type, false, hist))
+		}
 	}
 	return v
 }
@@ -719,6 +784,28 @@ func mutateStruct(r *vh.Rng, tbl *sqlgen.Table, x interface{}, hist func(string)
 		c := tbl.Columns[r.Intn(len(tbl.Columns))]
 		f := p.Elem().FieldByIndex(c.Index)
 		f.Set(genValue(r, f.Type(), c.Descriptor.Tags.Contains("implicitnull"), hist))
+	}
+	return p.Interface()
+}
+
+// isZeroValue mirrors fields.isZero for the catalogue's types.
+func isZeroValue(v reflect.Value) bool {
+	switch v.Kind() {
+	case reflect.Slice, reflect.Map, reflect.Ptr:
+		return v.IsNil()
+	}
+	return reflect.DeepEqual(v.Interface(), reflect.Zero(v.Type()).Interface())
+}
+
+// zeroSome returns a copy of x with some (all, when every is set) fields set to their zero value.
+func zeroSome(r *vh.Rng, tbl *sqlgen.Table, x interface{}, every bool) interface{} {
+	p := reflect.New(tbl.Type)
+	p.Elem().Set(reflect.ValueOf(x).Elem())
+	for _, c := range tbl.Columns {
+		if every || r.Chance(50) {
+			f := p.Elem().FieldByIndex(c.Index)
+			f.Set(reflect.Zero(f.Type()))
+		}
 	}
 	return p.Interface()
 }
@@ -753,6 +840,17 @@ func sameField(a, b reflect.Value) bool {
 		return ta.Equal(tb)
 	}
 	return reflect.DeepEqual(a.Interface(), b.Interface())
+}
+
+// failCap records a failure unless 25 of the same signature are already recorded, so that a frequent (known)
+// class cannot crowd a rare one out of the 200 failures a run keeps.
+var sigCount = map[string]int{}
+
+func failCap(run *vh.Run, idx int, sig, detail string, c interface{}) {
+	sigCount[sig]++
+	if sigCount[sig] <= 25 {
+		run.Fail(idx, sig, detail, c)
+	}
 }
 
 // ---------- observations ----------
@@ -841,7 +939,29 @@ func main() {
 	r := vh.NewRng(o.Seed)
 
 	var cases []Case
-	if o.Replay != "" {
+	searching := o.Search != ""
+	if searching {
+		// failing-input search: fresh values of the struct types on which model and implementation disagreed
+		// (all types when there are none), generated with boundary values everywhere; oracle only
+		var tables []string
+		if b, err := ioutil.ReadFile(o.Search); err == nil {
+			for _, line := range strings.Split(string(b), "\n") {
+				var w struct {
+					Case Case `json:"case"`
+				}
+				if strings.TrimSpace(line) != "" && json.Unmarshal([]byte(line), &w) == nil && w.Case.Table != "" {
+					tables = append(tables, w.Case.Table)
+				}
+			}
+		}
+		for i := 0; i < o.N; i++ {
+			t := catalogue[r.Intn(len(catalogue))].name
+			if len(tables) > 0 && r.Chance(85) {
+				t = tables[r.Intn(len(tables))]
+			}
+			cases = append(cases, Case{Table: t, Seed: r.U64(), Focus: true, Origin: "search"})
+		}
+	} else if o.Replay != "" {
 		var c Case
 		if vh.ReadReplayCase(o.Replay, &c) {
 			c.Origin = "replay"
@@ -867,6 +987,10 @@ func main() {
 		all = append(all, ob)
 	}
 
+	if searching {
+		run.Finish()
+		return
+	}
 	// Coq cases
 	const shard = 150
 	for start := 0; start < len(all); start += shard {
@@ -877,7 +1001,7 @@ func main() {
 		g := newRegistry()
 		var terms []string
 		for idx := start; idx < end; idx++ {
-			if ob := all[idx]; ob != nil && !ob.failed {
+			if ob := all[idx]; ob != nil && !ob.failed && !oracleOnly[ob.c.Table] {
 				terms = append(terms, fmt.Sprintf("(%d%%nat, %s)", idx, caseTerm(g, ob)))
 			}
 		}
@@ -899,7 +1023,7 @@ func presetValue(c Case, tbl *sqlgen.Table) interface{} {
 func runCase(run *vh.Run, schema *sqlgen.Schema, idx int, c Case) *obs {
 	tbl, ok := schema.ByName[c.Table]
 	if !ok {
-		run.Fail(idx, "bad-case", "unknown table "+c.Table, c)
+		failCap(run, idx, "bad-case", "unknown table "+c.Table, c)
 		return nil
 	}
 	r := vh.NewRng(c.Seed)
@@ -913,10 +1037,13 @@ func runCase(run *vh.Run, schema *sqlgen.Schema, idx int, c Case) *obs {
 		ob.x = pv
 	}
 	run.Hist("table:" + c.Table)
+	if oracleOnly[c.Table] {
+		run.Hist("excluded:json-payload-outside-model(oracle-only)")
+	}
 
 	var err error
 	if p := safely(func() { ob.unbuilt, err = schema.UnbuildStruct(c.Table, ob.x) }); p != "" || err != nil {
-		run.Fail(idx, "unbuild-failed", p+fmt.Sprint(err), c)
+		failCap(run, idx, "unbuild-failed", p+fmt.Sprint(err), c)
 		ob.failed = true
 		return ob
 	}
@@ -939,7 +1066,12 @@ func runCase(run *vh.Run, schema *sqlgen.Schema, idx int, c Case) *obs {
 		if f.Kind() == reflect.Ptr && !f.IsNil() {
 			f = f.Elem()
 		}
+		isPtrField := e.FieldByIndex(col.Index).Kind() == reflect.Ptr
 		switch {
+		case isPtrField && f.Kind() != reflect.Ptr && f.Type() == bytesType && f.IsNil():
+			excluded[i] = "pointer-to-nil-slice"
+		case isPtrField && f.Kind() != reflect.Ptr && f.Type() == nullStrType && !f.Interface().(sql.NullString).Valid:
+			excluded[i] = "pointer-to-invalid-nullstring"
 		case ob.descs[i].kind == "uint" && f.Kind() != reflect.Ptr && f.Uint() > math.MaxInt64:
 			excluded[i] = "uint64-above-int64"
 		case f.Kind() != reflect.Ptr && f.Type() == timeType:
@@ -989,6 +1121,10 @@ func runCase(run *vh.Run, schema *sqlgen.Schema, idx int, c Case) *obs {
 				if ok && excluded[i] == "" {
 					s, h = v, &how{col, p}
 					run.Hist("repr:" + col.kind + "/" + p)
+					if col.kind == "int" && col.w == 24 && col.unsigned && p == "PBinlog" {
+						inDomain = false // values from 2^23 come back negative: excluded by col_matches
+						run.Hist("excluded:mediumint-unsigned-binlog")
+					}
 					if d.kind == "uint" && col.kind == "int" && p == "PBinlog" && col.w < d.w {
 						if z, isInt := dv.(int64); isInt && z >= int64(1)<<uint(col.w-1) {
 							f24[tbl.Columns[i].Name] = true
@@ -999,6 +1135,12 @@ func runCase(run *vh.Run, schema *sqlgen.Schema, idx int, c Case) *obs {
 					// back unchanged, as the protobuf path or a driver that does not convert would (model: PProto)
 					s, h = dv, &how{col, "PProto"}
 					run.Hist("repr:passthrough/PProto")
+					if excluded[i] == "pointer-to-nil-slice" || excluded[i] == "pointer-to-invalid-nullstring" {
+						inDomain = false
+						if b, isB := dv.([]byte); isB && b == nil {
+							h = nil // []byte(nil) inside a driver.Value: the model's DBytes "" is handed back as an empty slice
+						}
+					}
 					if !ok && excluded[i] == "" {
 						run.Hist("excluded:" + col.kind + "/" + p + "-cannot-hold-value")
 					}
@@ -1009,7 +1151,7 @@ func runCase(run *vh.Run, schema *sqlgen.Schema, idx int, c Case) *obs {
 		}
 		var berr error
 		if p := safely(func() { ro.built, berr = schema.BuildStruct(c.Table, cloneRow(ro.row)) }); p != "" {
-			run.Fail(idx, "build-panic", p, c)
+			failCap(run, idx, "build-panic", p, c)
 			ob.failed = true
 			return ob
 		}
@@ -1017,13 +1159,13 @@ func runCase(run *vh.Run, schema *sqlgen.Schema, idx int, c Case) *obs {
 		if inDomain {
 			if berr != nil {
 				sig := "round-trip-decode-error"
-				run.Fail(idx, sig, fmt.Sprintf("row %d: BuildStruct(%s) failed: %v; value %s", k, describeRow(ro), berr, printStruct(tbl, ob.x)), c)
+				failCap(run, idx, sig, fmt.Sprintf("row %d: BuildStruct(%s) failed: %v; value %s", k, describeRow(ro), berr, printStruct(tbl, ob.x)), c)
 			} else if same, col := sameStruct(tbl, ob.x, ro.built); !same {
 				sig := "round-trip-mismatch"
 				if f24[col] {
 					sig = "binlog-unsigned-int-narrower-than-field"
 				}
-				run.Fail(idx, sig, fmt.Sprintf("row %d column %s: sent %s, representation %s, decoded %s", k, col, printStruct(tbl, ob.x), describeRow(ro), printStruct(tbl, ro.built)), c)
+				failCap(run, idx, sig, fmt.Sprintf("row %d column %s: sent %s, representation %s, decoded %s", k, col, printStruct(tbl, ob.x), describeRow(ro), printStruct(tbl, ro.built)), c)
 			} else {
 				run.Hist("roundtrip:ok")
 			}
@@ -1074,7 +1216,7 @@ func runCase(run *vh.Run, schema *sqlgen.Schema, idx int, c Case) *obs {
 		if p := safely(func() {
 			ro.parsed, perr = livesql.VerifParseBinlogRow(tbl, cloneRowI(ro.binlog), ro.expected, ro.source)
 		}); p != "" {
-			run.Fail(idx, "parse-binlog-row-panic", p, c)
+			failCap(run, idx, "parse-binlog-row-panic", p, c)
 			ob.failed = true
 			return ob
 		}
@@ -1082,15 +1224,15 @@ func runCase(run *vh.Run, schema *sqlgen.Schema, idx int, c Case) *obs {
 		if len(ro.binlog) == ro.expected && dropped < 0 {
 			// same sources, same struct expected as BuildStruct
 			if ro.builtErr != ro.parseErr {
-				run.Fail(idx, "binlog-row-differs-from-build", fmt.Sprintf("BuildStruct err=%v parseBinlogRow err=%v", berr, perr), c)
+				failCap(run, idx, "binlog-row-differs-from-build", fmt.Sprintf("BuildStruct err=%v parseBinlogRow err=%v", berr, perr), c)
 			} else if !ro.builtErr {
 				if same, col := sameStruct(tbl, ro.built, ro.parsed); !same {
-					run.Fail(idx, "binlog-row-differs-from-build", "column "+col, c)
+					failCap(run, idx, "binlog-row-differs-from-build", "column "+col, c)
 				}
 			}
 		}
 		if len(ro.binlog) != ro.expected && perr == nil {
-			run.Fail(idx, "binlog-column-count-not-checked", "", c)
+			failCap(run, idx, "binlog-column-count-not-checked", "", c)
 		}
 		ob.rows = append(ob.rows, ro)
 	}
@@ -1111,23 +1253,30 @@ func runCase(run *vh.Run, schema *sqlgen.Schema, idx int, c Case) *obs {
 		}
 		ob.self = t.Test(ob.x)
 	}); p != "" {
-		run.Fail(idx, "tester-panic", p, c)
+		failCap(run, idx, "tester-panic", p, c)
 		ob.failed = true
 		return ob
 	}
 	if !ob.self {
-		run.Fail(idx, "tester-not-reflexive", "MakeTester(extractRow(x)).Test(x) = false for "+printStruct(tbl, ob.x), c)
+		failCap(run, idx, "tester-not-reflexive", "MakeTester(extractRow(x)).Test(x) = false for "+printStruct(tbl, ob.x), c)
 	}
 	_ = anyExcluded
 
 	// filters
-	others := []interface{}{ob.x, mutateStruct(r, tbl, ob.x, func(string) {}), genStruct(r, tbl, func(string) {})}
-	for k := 0; k < 4; k++ {
+	others := []interface{}{ob.x, mutateStruct(r, tbl, ob.x, func(string) {}), genStruct(r, tbl, func(string) {}),
+		zeroSome(r, tbl, ob.x, r.Chance(30))}
+	nfilters := 4
+	if c.Focus {
+		nfilters = 10
+		others = append(others, zeroSome(r, tbl, ob.x, true))
+	}
+	for k := 0; k < nfilters; k++ {
 		fo := &filterObs{filter: sqlgen.Filter{}, rows: others}
 		typed := true
 		nonUTC := false
 		ptrZeroImplicit := false // a pointer to a zero value on an implicitnull column
 		ptrOnMarshaler := false  // a pointer on a non-pointer binary-tagged column whose type has Marshal
+		ptrNilJSON := false      // a pointer to a nil slice / map on a json-tagged column
 		ncols := 1 + r.Intn(3)
 		if r.Chance(10) {
 			ncols = 0
@@ -1138,7 +1287,14 @@ func runCase(run *vh.Run, schema *sqlgen.Schema, idx int, c Case) *obs {
 			from := others[r.Intn(len(others))]
 			fv := reflect.ValueOf(from).Elem().FieldByIndex(col.Index)
 			var val interface{}
-			switch q := r.Intn(20); {
+			q := r.Intn(20)
+			if c.Focus && r.Chance(60) {
+				q = 13 + r.Intn(3)*3 // nil, typed nil pointer, zero value
+				if q > 19 {
+					q = 19
+				}
+			}
+			switch {
 			case q < 10:
 				val = fv.Interface()
 			case q < 13: // pointer <-> value variant of the same type
@@ -1148,19 +1304,22 @@ func runCase(run *vh.Run, schema *sqlgen.Schema, idx int, c Case) *obs {
 					} else {
 						val = fv.Elem().Interface()
 					}
-				} else if fv.Type() != bytesType {
+				} else {
 					p := reflect.New(fv.Type())
 					p.Elem().Set(fv)
 					val = p.Interface()
-				} else {
-					val = fv.Interface()
 				}
 			case q < 14:
 				val = nil
-				if !col.Descriptor.Ptr {
-					typed = typed && true
+			case q == 16: // a nil pointer of the column's Go type (also for non-pointer columns)
+				t := fv.Type()
+				if t.Kind() != reflect.Ptr {
+					t = reflect.PtrTo(t)
 				}
-			case q < 16 && k == 3: // mistyped: a value of another field's type
+				val = reflect.Zero(t).Interface()
+			case q == 19: // the zero value of the column's Go type
+				val = reflect.Zero(fv.Type()).Interface()
+			case q < 16 && k == 3 && !c.Focus: // mistyped: a value of another field's type
 				oc := tbl.Columns[r.Intn(len(tbl.Columns))]
 				ofv := reflect.ValueOf(from).Elem().FieldByIndex(oc.Index)
 				if d := descOf(oc); d.kind == "cbin" || d.kind == "ctext" || (ob.descs[ci].tag != "TNone" && ob.descs[ci].tag != "TImplicitNull") {
@@ -1181,11 +1340,14 @@ func runCase(run *vh.Run, schema *sqlgen.Schema, idx int, c Case) *obs {
 				nonUTC = true
 			}
 			if rv := reflect.ValueOf(val); rv.IsValid() && rv.Kind() == reflect.Ptr && !rv.IsNil() {
-				if ob.descs[ci].tag == "TImplicitNull" && rv.Elem().Interface() == reflect.Zero(rv.Elem().Type()).Interface() {
+				if ob.descs[ci].tag == "TImplicitNull" && isZeroValue(rv.Elem()) {
 					ptrZeroImplicit = true
 				}
 				if ob.descs[ci].kind == "cbin" && !ob.descs[ci].ptr {
 					ptrOnMarshaler = true
+				}
+				if k := rv.Elem().Kind(); col.Descriptor.Tags.Contains("json") && (k == reflect.Slice || k == reflect.Map) && rv.Elem().IsNil() {
+					ptrNilJSON = true
 				}
 			}
 			fo.filter[col.Name] = val
@@ -1202,17 +1364,17 @@ func runCase(run *vh.Run, schema *sqlgen.Schema, idx int, c Case) *obs {
 				}
 			}); p != "" {
 				if ptrOnMarshaler {
-					run.Fail(idx, "valuer-panics-on-pointer-filter-for-binary-column", fmt.Sprintf("filter %v: %s", fo.filter, p), c)
+					failCap(run, idx, "valuer-panics-on-pointer-filter-for-binary-column", fmt.Sprintf("filter %v: %s", fo.filter, p), c)
 					continue
 				}
-				run.Fail(idx, "tester-panic", p, c)
+				failCap(run, idx, "tester-panic", p, c)
 				ob.failed = true
 				return ob
 			}
 			var pb *thunderpb.SQLFilter
 			var perr error
 			if p := safely(func() { pb, perr = livesql.FilterToProto(schema, c.Table, fo.filter) }); p != "" {
-				run.Fail(idx, "filter-to-proto-panic", p, c)
+				failCap(run, idx, "filter-to-proto-panic", p, c)
 				ob.failed = true
 				return ob
 			}
@@ -1232,7 +1394,7 @@ func runCase(run *vh.Run, schema *sqlgen.Schema, idx int, c Case) *obs {
 					var tn string
 					var ferr error
 					if p := safely(func() { tn, fo.back, ferr = livesql.FilterFromProto(schema, back) }); p != "" {
-						run.Fail(idx, "filter-from-proto-panic", p, c)
+						failCap(run, idx, "filter-from-proto-panic", p, c)
 						ob.failed = true
 						return ob
 					}
@@ -1240,19 +1402,21 @@ func runCase(run *vh.Run, schema *sqlgen.Schema, idx int, c Case) *obs {
 					if ferr == nil {
 						run.Hist("proto:ok")
 						if tn != c.Table {
-							run.Fail(idx, "proto-table-changed", tn, c)
+							failCap(run, idx, "proto-table-changed", tn, c)
 						}
 						t2, e2 := schema.MakeTester(c.Table, fo.back)
 						if e2 != nil {
-							run.Fail(idx, "proto-filter-unusable", e2.Error(), c)
+							failCap(run, idx, "proto-filter-unusable", e2.Error(), c)
 						} else if typed && !nonUTC {
 							for i, row := range fo.rows {
 								if v2 := t2.Test(row); v2 != fo.verdicts[i] {
 									sig := "proto-round-trip-changes-verdict"
 									if ptrZeroImplicit {
 										sig = "proto-pointer-to-zero-on-implicitnull-column"
+									} else if ptrNilJSON {
+										sig = "proto-pointer-to-nil-on-json-column"
 									}
-									run.Fail(idx, sig, fmt.Sprintf("filter %v -> %v on row %s: %v -> %v", fo.filter, fo.back, printStruct(tbl, row), fo.verdicts[i], v2), c)
+									failCap(run, idx, sig, fmt.Sprintf("filter %v -> %v on row %s: %v -> %v", fo.filter, fo.back, printStruct(tbl, row), fo.verdicts[i], v2), c)
 									break
 								}
 							}
